@@ -1177,6 +1177,16 @@ func (x *Exec) evalMethod(env *SpecEnv, e EMethod) Val {
 			sel := ms.At(i)
 			if sel.Obj().Name() == e.Name {
 				fn := x.P.Prog.MethodValue(sel)
+				if fn != nil && fn.Blocks == nil {
+					// a method of a dependency (no body loaded): usable when assumed pure
+					if ct := x.contractFor(fn); ct != nil && ct.Pure {
+						args := []Val{recv}
+						for _, a := range e.Args {
+							args = append(args, x.evalVal(env, a))
+						}
+						return x.ufCall("lib."+ShortKey(FuncKey(fn)), args, fn.Signature, env.cur)
+					}
+				}
 				if fn != nil && fn.Blocks != nil {
 					args := []Val{recv}
 					for i, a := range e.Args {
